@@ -1,0 +1,29 @@
+//go:build verif
+
+package resolve
+
+import "sync/atomic"
+
+// This file is only built with the verif tag: it lets a verification workload
+// register a function that APIClient calls between its critical sections (after
+// the bundled versions of a response have been computed and before they are
+// stored; before a lookup of a bundled version takes the lock), so that the
+// workload can yield there and widen the set of interleavings it observes.
+
+var verifYieldFunc atomic.Pointer[func(site string)]
+
+// SetVerifYield registers f to be called at the yield sites of APIClient; nil
+// removes it.
+func SetVerifYield(f func(site string)) {
+	if f == nil {
+		verifYieldFunc.Store(nil)
+		return
+	}
+	verifYieldFunc.Store(&f)
+}
+
+func verifYield(site string) {
+	if f := verifYieldFunc.Load(); f != nil {
+		(*f)(site)
+	}
+}
